@@ -141,11 +141,6 @@ func (db *DB) VerifC10RawPendingSnapshot() []byte {
 func (db *DB) VerifC10RawSnapshot(id order.BatchID) []byte {
 	var res []byte
 	_ = db.View(func(tx *bbolt.Tx) error {
-<<<<<<< HEAD
-		// navigate the buckets directly (independent of the signature of
-		// the unexported helper getSnapshotBuckets)
-=======
->>>>>>> wip-store
 		top := tx.Bucket(batchSnapshotBucketKey)
 		if top == nil {
 			return nil
